@@ -165,14 +165,15 @@ func (m *Dense) UnmarshalBinary(data []byte) error {
 	if rows < 0 || cols < 0 {
 		return errBadSize
 	}
-	size := rows * cols
-	if size == 0 {
+	if rows == 0 || cols == 0 {
 		return ErrZeroLength
 	}
-	if int(size) < 0 || size > maxLen {
+	if rows > (maxLen-int64(headerSize))/int64(sizeFloat64)/cols {
+		// rows*cols elements do not fit in a slice of bytes (or overflow int64).
 		return errTooBig
 	}
-	if len(data) != headerSize+int(rows*cols)*sizeFloat64 {
+	size := rows * cols
+	if len(data) != headerSize+int(size)*sizeFloat64 {
 		return errBadBuffer
 	}
 
@@ -221,11 +222,11 @@ func (m *Dense) UnmarshalBinaryFrom(r io.Reader) (int, error) {
 	if rows < 0 || cols < 0 {
 		return n, errBadSize
 	}
-	size := rows * cols
-	if size == 0 {
+	if rows == 0 || cols == 0 {
 		return n, ErrZeroLength
 	}
-	if int(size) < 0 || size > maxLen {
+	if rows > maxLen/cols {
+		// rows*cols overflows.
 		return n, errTooBig
 	}
 
@@ -358,7 +359,8 @@ func (v *VecDense) UnmarshalBinary(data []byte) error {
 	if n < 0 {
 		return errBadSize
 	}
-	if int64(maxLen) < n {
+	if (maxLen-int64(headerSize))/int64(sizeFloat64) < n {
+		// n elements do not fit in a slice of bytes.
 		return errTooBig
 	}
 	if len(data) != headerSize+int(n)*sizeFloat64 {
